@@ -41,6 +41,9 @@ FACTORS = [  # first value = default (what shrinking moves towards)
     ("total_iterations", [2, 3, 4]),
     # how the user declares the callbacks (inspect / terminate / transitions): all are "functions with one (two) argument(s)"
     ("callback_form", ["plain", "default_arg", "partial", "object", "method", "starargs"]),
+    # likelihood_energy, kl_minimizer, sampling_iteration_controller, nonlinear_sampling_minimizer given as functions of the iteration
+    ("callable_args", [False, True]),
+    ("initial_index", [0, 1]),
 ]
 DEFAULT = {k: v[0] for k, v in FACTORS}
 ENV_EVENTS = ["keep", "rmdirs", "push_sseq"]
@@ -253,13 +256,31 @@ def invoke(env, cfg):
     obs["marker_before"] = marker
     resumed = bool(cfg["resume"] and marker is not None)
     obs["resumed"] = resumed
-    obs["first_index"] = (marker + 1) if resumed else 0
+    obs["first_index"] = (marker + 1) if resumed else cfg.get("initial_index", 0)
     stack_before = list(R._sseq)
     rng_before = list(R._rng)
     snap_before = env.snapshot()
     env.fs.mutations_outside = []
     ic = ift.AbsDeltaEnergyController(1e-6, iteration_limit=10)
     mini = ift.NewtonCG(ift.AbsDeltaEnergyController(1e-6, iteration_limit=3))
+    if cfg.get("callable_args"):
+        obs["callable_arg_calls"] = []
+        lh0, mini0, ic0 = lh, mini, ic
+
+        def lh(i):
+            obs["callable_arg_calls"].append(("lh", i))
+            return lh0
+
+        def mini(i):
+            return mini0
+
+        def ic(i):
+            return ic0 if nsamp(i) > 0 or cfg["n_samples"] != 0 else None
+        if "nonlinear_sampling_minimizer" in kw:
+            nl0 = kw["nonlinear_sampling_minimizer"]
+            kw["nonlinear_sampling_minimizer"] = lambda i: nl0 if i % 2 == 0 else None
+    if cfg.get("initial_index", 0):
+        kw["initial_index"] = cfg["initial_index"]
     with simfs.mounted(env.fs, fake_clock=False):
         try:
             res = ift.optimize_kl(lh, T, kw.pop("n_samples"), mini, ic, output_directory=odir,
@@ -352,7 +373,7 @@ def check(env, cfg, obs, history_pos):
             if not obs["pe_zero"].get(i, True):
                 raise Violation({"oracle": "point-estimate-has-residual"}, f"iteration {i}")
             prev = obs["means"].get(i - 1)
-            if i == 0 and cfg["initial_position"]:
+            if i == obs["first_index"] and cfg["initial_position"] and not obs["resumed"]:
                 prev = obs["initial"]
             if prev is None or (cfg["transitions"] and i > 0):
                 continue
